@@ -290,4 +290,12 @@ PROPS = {
         ["struct-level msgpack (map headers, str/bin framing) is validated by the round-trip monitor, not modelled byte by byte; the modelled primitives are uint64 and time",
          "protobuf encoding itself (varints, length-delimited fields) is trusted library code; the model covers the mapping functions and the timestamp arithmetic"],
         ("Model/Codec.vo",)),
+    "C17": make_pure_check("C17", "cache",
+        "seeded sequential sequences of SaveAwaitedTransaction / RemoveAwaitedTransaction (by the receiver, by others, unknown hashes, repeats, issuer = receiver) on the real cache over 4 "
+        "addresses, with ReadTransactions of EVERY address after EVERY operation; plus concurrent rounds (16 goroutines saving/reading then 8 removing on one receiver); "
+        "non-trivial = distinct sequences that end with something still awaiting",
+        "result class of every call and the listed set of every address after every operation vs the Coq model (CheckCache.cmismatches, coqc vm_compute) and vs a map-based reference (monitor)",
+        ["operations are atomic because they run under Hippocampus.mux (premise of applying the sequential theorem to concurrent use; the lock discipline is C18's subject)",
+         "expiry (5 min life window of bigcache) is not modelled nor exercised"],
+        ("Run/CheckCache.vo",)),
 }
